@@ -70,7 +70,7 @@ def validation(P, M, S):
     out = [part("07_validation_head.md")]
     benign = sorted(k for k, v in M.items() if v["kind"] == "benign")
     silent = [k for k in benign if not M[k]["caught"]]
-    out.append(f"**Behaviour-preserving refactorings:** {len(benign)} stored patches (benign/rf1 .. rf16, four per sub-agent), "
+    out.append(f"**Behaviour-preserving refactorings:** {len(benign)} stored patches (benign/rf1 .. rf34, four per sub-agent), "
                f"{len(silent)} silent for every claimed property on the final machinery.\n")
     out.append("**Breaking changes** (each confirmed by me: applies to HEAD, the 55 tests still pass, its demonstration test fails with the change and "
                "passes without it):\n")
